@@ -79,9 +79,15 @@ func blockToSeqPair(alignedBlock alignedBlockInfo, ref []byte) alignPair {
 
 			if op.Type().String() == "I" {
 
-				I := insertionOccurence{start: pos, length: op.Len(), rowNumber: i}
+				if n := len(insertions); n > 0 && insertions[n-1].rowNumber == i && insertions[n-1].start == pos {
+					// several I operations of one record at the same place (e.g. either side of
+					// a P operation) are one insertion
+					insertions[n-1].length += op.Len()
+				} else {
+					I := insertionOccurence{start: pos, length: op.Len(), rowNumber: i}
 
-				insertions = append(insertions, I)
+					insertions = append(insertions, I)
+				}
 			}
 
 			// if op.Type().Consumes().Query == 1 || op.Type().Consumes().Reference == 1 {
